@@ -34,6 +34,16 @@ def gen(ctx):
             yield "recvwf 3 eof %s" % hexlist([s])
             yield "recvwf 3 eof %s" % hexlist([s[i:i + 1] for i in range(len(s))])
     ctx["scopes"].append("multi-line replies whose middle lines begin with the reply's own code without being closing lines (code alone, code + TAB / VT / FF / CR / '-' / letter), whole and with every single cut")
+    # replies that are long as a whole while every line is short (a STAT of a big directory, a long banner): the 8192-byte
+    # limit is per line, not per reply
+    for nl, ll in ((120, 70), (160, 70), (400, 40), (30, 300), (9, 1000), (3, 8000)):
+        for term in (b"\r\n", b"\n"):
+            mids = [(b"-rw-r--r-- 1 owner group %6d Jan 01 00:00 file-%04d.dat" % (k * 37, k)).ljust(ll, b".")[:ll] for k in range(nl)]
+            s = enc_reply(211, [b"Status of /pub"] + mids + [b"End of status"], [term] * (nl + 2)) + enc_reply(200, [b"next"], [term])
+            yield "recvwf 3 eof %s" % hexlist([s])
+            yield "recvwf 3 eof %s" % hexlist([s[i:i + 1460] for i in range(0, len(s), 1460)])
+            yield "recvwf 3 eof %s" % hexlist([s[i:i + 8192] for i in range(0, len(s), 8192)])
+    ctx["scopes"].append("multi-line replies of 8 - 24 KiB in total whose lines are all short (120 - 400 lines), whole and in 1460- / 8192-byte segments")
     n = 4000 if tier == "quick" else 150000
     for i in range(n):
         k = rng.range(1, 5)
